@@ -101,10 +101,12 @@ def with_prestate(ctx, fn, tag='pre', k=3):
     tabs = havoc_tables(ctx, tag, k)
     if ctx.symbolic:
         return fn(tabs)
+    n0 = getattr(ctx, '_sweep_windows', 0)
     try:
         fn(tabs)
     except Exception:       # noqa
         pass
+    ctx._sweep_windows = n0          # the second pass declares the same inputs again
     return fn({n: dict(t.initial) for n, t in tabs.items()})
 
 
@@ -265,7 +267,13 @@ def run_window(ctx, name, a, r, lookups=(), tid=TID, ts0=100, code_name=None, lo
     eid = by_name[code_name or name]
     lid = by_name['VFS_LOOKUP']
     before = [make_event(ts0 - len(lost) + i, w, tid, eid | K.DBG_FUNC_START) for i, w in enumerate(lost)]
-    evs = [make_event(ts0, a, tid, eid | K.DBG_FUNC_START)]
+    # the timestamps of the window's own START and END records are free (equal, decreasing, huge: all allowed)
+    ts_start = ts_end = None
+    if hasattr(ctx, 'int') and hasattr(ctx, 'records'):
+        n = getattr(ctx, '_sweep_windows', 0)
+        ctx._sweep_windows = n + 1
+        ts_start, ts_end = ctx.int('win%d_ts_start' % n), ctx.int('win%d_ts_end' % n)
+    evs = [make_event(ts0 if ts_start is None else ts_start, a, tid, eid | K.DBG_FUNC_START)]
     ts = ts0 + 1
     for i, (text, vnode) in enumerate(lookups):
         recs = lookup_records(ctx, 'l%d' % i, ts, tid, text, vnode, lid)
@@ -276,7 +284,7 @@ def run_window(ctx, name, a, r, lookups=(), tid=TID, ts0=100, code_name=None, lo
         for i in range(nested):
             evs.append(make_event(ts, [13 + (i & 1), 777, i, 3], tid, nid))
             ts += 1
-    evs.append(make_event(ts + 1, r, tid, eid | K.DBG_FUNC_END))
+    evs.append(make_event(ts + 1 if ts_end is None else ts_end, r, tid, eid | K.DBG_FUNC_END))
     p = new_parser() if tables is None else parser_on(tables)
     for i, (pn, pa, pr) in enumerate(prior):
         pid_ = by_name[pn]
